@@ -57,3 +57,20 @@ PROPS["C11"] = {
   "components": {"real": REAL_LIB, "stub": ["scan callback (consumer behaviour: reply plan)", "model evaluator for the generated condition language (oracle)"]},
   "assumptions": ["ABORT in reply to a module message, and any reply to CONSOLE_LOG / SCAN_FINISHED, are unspecified by the property and not injected", "the model evaluates only the generated condition language; other condition features are C04 territory"],
 }
+
+PROPS["C10"] = {
+  "engine": "sim_history", "variant": "small", "level": "exploration",
+  "parts": [{"args": ["--mode", "c10"]}],
+  "budget_quick": 75, "budget_thorough": 1500,
+  "rule": "one run = one long-lived scanner driven through a generated history of 3-12 scans; each scan = (buffer from {text with plants, PE, ELF, empty, many-matches, fiber-bomb, second text}, entry point mem/file/2-block iterator, report flags, module data, injected outcome from {none, callback ABORT/ERROR at message k, simulated clock jumping past the deadline at clock read j, match-limit warning answered CONTINUE/ABORT (limit lowered to 96 by the build knob), iterator not-ready resumed / abandoned}). Oracle: every scan's trace and return code equal those of a freshly created scanner given the same settings, buffer and fault plan; after every completed scan the public scan context holds no match lists, no notebook and a balanced regex fiber pool; destroying the scanner after the history leaves no allocation behind. Failing histories are shrunk by dropping scans. Non-trivial = all histories (each reuses the scanner); distinct = distinct (rules, history shape).",
+  "components": {"real": REAL_LIB, "stub": ["scan callback replies", "clock (simulated; only source of time for the scanner)", "block iterator", "allocator ledger"]},
+  "assumptions": ["scanner-level settings (flags, timeout, callback) are re-applied before every scan on both scanners", "YR_MAX_STRING_MATCHES lowered to 96 through the #ifndef-guarded knob in limits.h"],
+}
+PROPS["C20"] = {
+  "engine": "sim_history", "variant": "asan", "level": "exploration",
+  "parts": [{"args": ["--mode", "c20"]}],
+  "budget_quick": 60, "budget_thorough": 1500,
+  "rule": "one run = a seeded operation history over a compiler, the rule set it produces (and a saved+loaded copy), and up to four scanners: compile-time defines of all four types incl. duplicates and NULL strings; rules-level and scanner-level defines incl. unknown identifiers, wrong types and NULL; scanner creation; scans through each scanner and rules-level scans. Oracle: three-level environment model (compile-time -> rule-set -> per-scanner snapshot at creation) predicting every define's return code and the verdict of ten probe rules that use the variables as ==, arithmetic, boolean, float range, contains/matches, `at`, `in`, `of` quantifier, loop bound and variable-vs-variable; after every define ALL scanners and a rules-level scan are re-checked (isolation). Failing histories are shrunk. Non-trivial = all histories; distinct = distinct operation/value sequence.",
+  "components": {"real": REAL_LIB, "stub": ["reference environment model (oracle)"]},
+  "assumptions": ["integer vs boolean at scanner level is deliberately unchecked (same object type in the implementation, undocumented)", "NULL string values are not passed at scanner level (unspecified)", "save+load is skipped once a rules-level string define happened (that history aborts in save: C08 finding)"],
+}
